@@ -1253,9 +1253,11 @@ class SimplicialComplex:
         # start with a copy of ourselves
         flag = self.copy()
 
-        # we work from the bottom with all 1-simplices
+        # we work from the bottom with all the simplices of order 1 and above
         nss = dict()
         nss[1] = set(range(len(flag.simplicesOfOrder(1))))
+        for k in range(2, flag.maxOrder() + 1):
+            nss[k] = set(range(len(flag.simplicesOfOrder(k))))
         flag._completePotentialSimplices(nss)
 
         return flag
